@@ -24,7 +24,8 @@ RULE = ("(1) pairs of Magnitudes from a value grid (either sign, arrays, zero wh
         "float/int exact factors of either sign; constructors with the unit given as an exact or uncertain Quantity; q.rebase() on "
         "compound units mixing units of one dimension; augmented assignments (+= -= *= /=) on Magnitude and Quantity; operands "
         "whose error exceeds the value (quotients judged for db<b and b<db<=2b); (6) sums/differences of logarithmic levels in "
-        "one unit (sum clause + non-negativity only). non-trivial = at least one operand carries an error and (a negative "
+        "one unit (sum clause + non-negativity only); after every + - * / neg ** on fresh quantities the RESULT is given an "
+        "uncertainty (abse()/rele()) and the operands' uncertainties are re-read; exactly 0 on the left of + and -. non-trivial = at least one operand carries an error and (a negative "
         "value/factor/exponent, an array, or different units) ; distinct = canonical JSON of the input")
 ASSUMPTIONS = [
     "operand errors are non-negative (abse >= 0, rele >= 0) as the property presupposes; magnitudes are floats, float "
@@ -520,6 +521,12 @@ def judge_qty(ctx, c, req, imp, ans, stream="qty"):
     ctx.case(json.dumps(c, sort_keys=True, default=str), has_err and U.nontrivial(c),
              {"quantity_case": U.describe(c), "op": c["op"], "abse": None if imp == "err" else imp["e"]})
     spec = ans["ok"]["spec"]
+    if imp != "err" and imp.get("operand_error_changed"):
+        side, before, after = imp["operand_error_changed"][0]
+        ctx.violation("result-shares-uncertainty:" + name,
+                      "%s: giving the RESULT an uncertainty changed the %s operand's absolute error from %s to %s - the result "
+                      "is not a new value; exact operands then yield uncertain results and sums the wrong total" %
+                      (what, side, before, after), {"case": c, "changed": imp["operand_error_changed"]})
     if imp != "err":
         rule = {"rule": "nonneg"} if has_err else {"rule": "exact"}
         bad = check_rule(ctx, name, c, imp["e"], rule, what)
